@@ -8,7 +8,7 @@ from .cgt import cgt_family, law_family, report_family, calendar_family, fx_fami
 
 
 def c01(tier, seed):
-    return combine(fam_list(tier, ['core_q', 'frac_q', 'split_q', 'split5_q', 'two_split_q'], ['core_t', 'split_t', 'two_q']), 'multi_leg_disposals',
+    return combine(fam_list(tier, ['core_q', 'edge_q', 'frac_q', 'split_q', 'split5_q', 'two_split_q'], ['core_t', 'split_t', 'two_q']), 'multi_leg_disposals',
                    'every cell ledger of the family (TLC-enumerated) x base dates; non-trivial = ledgers with a disposal '
                    'identified by two or more legs')
 
